@@ -14,7 +14,7 @@ from rv.gen import lastext
 
 ID = "C06"
 LEVEL = "exploration"
-NULLS = ["-999.25", "-999.2500", "-9.9925E2", "-9999", "0", "999", "1e30", "2147483647", "-999.250", "9999.25", "-0.5", "-9999999.25", "99999999999", "3.4028235e+38"]
+NULLS = ["-999.25", "-999.2500", "-9.9925E2", "-9999", "0", "999", "1e30", "2147483647", "-999.250", "9999.25", "-0.5", "-9999999.25", "99999999999", "3.4028235e+38", "-99999999999999999999", "18446744073709551616"]
 RULE = ("read side: NULL text from %d spellings/values (negative, positive, integer, zero, large, exponent) x cells per column "
         "from {equal by another spelling, +-1 ulp neighbours, NULL+-1e-6, -NULL, ordinary} incl. the index column x optional "
         "text column x engine {numpy, normal} x null_policy {strict, none} x {unwrapped, wrapped} x files without a NULL item; "
